@@ -105,11 +105,29 @@ def gen_resp_types():
         for fr in ("TCP", "RTU"):
             T = f"{name}Response{fr}"
             o = 6 if fr == "TCP" else 0
-            cl = enc_requires(kind, "r", lf) + ["safety[C02,C03]", "modifies[C02] nothing", "fresh[C02] res"]
             if fr == "TCP":
+                cl = enc_requires(kind, "r", lf) + ["safety[C02,C03]", "modifies[C02] nothing", "fresh[C02] res"]
                 cl.append(f"ensures[C02,C16] mbapOK(res, r.TransactionID, {pdu_len(kind, 'r')}) && {pdu_resp(kind, fc, 'res', 6, 'r', lf)}")
             else:
-                cl.append(f"ensures[C02,C03] len(res) == {pdu_len(kind, 'r')} + 2 && {pdu_resp(kind, fc, 'res', 0, 'r', lf)}")
+                # RTU: C03 quantifies over every frame the encoder can emit, so the pre-condition is only what the encoder
+                # needs not to panic (16-bit length arithmetic); the layout clause keeps the well-formedness of the value
+                # as its antecedent, the length and the CRC trailer are unconditional.
+                wf = None
+                if kind == "bytes":
+                    cl = ["requires len(r.Data) <= 65000"]
+                    wf = "len(r.Data) <= 255"
+                    ln = "3+len(r.Data)"
+                elif kind == "regs":
+                    cl = []
+                    wf = f"int(r.{lf}) == len(r.Data)"
+                    ln = f"3+int(r.{lf})"
+                else:
+                    cl = enc_requires(kind, "r", lf)
+                    ln = pdu_len(kind, 'r')
+                cl += ["safety[C02,C03]", "modifies[C02] nothing", "fresh[C02] res"]
+                cl.append(f"ensures[C02,C03] len(res) == {ln} + 2")
+                ante = f"{wf} ==> " if wf else ""
+                cl.append(f"ensures[C02,C03] {ante}{pdu_resp(kind, fc, 'res', 0, 'r', lf)}")
                 cl.append("ensures[C03] crcTrailer(res, len(res))")
             block(f"(r {T}) Bytes() (res []byte)", cl)
             # parser
